@@ -5,8 +5,8 @@ def _loom(tier, seed):
 
 SPEC = {
     "custom": _loom,
-    "tie": ["props/C07_tieA.vo", "tie/HandleEquiv.vo", "tie/ReprEquiv.vo"],
-    "gen_items": ["src/vecs/inline.rs + src/bytes/raw.rs:tag arithmetic", "src/bytes/raw/allocated.rs:slice_unchecked + explicit_clone", "src/bytes/raw.rs:range_unchecked + from_slice + normalized_from_vec"],
+    "tie": ["props/C07_tieA.vo", "tie/HandleEquiv.vo", "tie/ReprEquiv.vo", "tie/EditEquiv.vo"],
+    "gen_items": ["src/vecs/inline.rs + src/bytes/raw.rs:tag arithmetic", "src/bytes/raw/allocated.rs:slice_unchecked + explicit_clone", "src/bytes/raw.rs:range_unchecked + from_slice + normalized_from_vec", "src/bytes.rs:truncate + pop + shrink_to; allocated.rs:shrink_to"],
     "tieA_required": True,
  "id": "C07",
  "level": "proof",
